@@ -50,6 +50,10 @@ def run(ctx):
                 continue
             keys.append((q, kind, key, n))
     for q, kind, key, n in keys:
+        if isinstance(key, ast.Name):
+            kdefs = [a.value for a in ast.walk(m.funcs[q]) if isinstance(a, ast.Assign) and any(isinstance(t, ast.Name) and t.id == key.id for t in a.targets)]
+            if len(kdefs) == 1:
+                key = kdefs[0]
         ok = isinstance(key, ast.Tuple) and len(key.elts) == 2
         parts = [src(e) for e in key.elts] if isinstance(key, ast.Tuple) else [src(key)]
         jobvars = {p.split(".")[0] for p in parts if "." in p}
